@@ -73,6 +73,10 @@ class C16(Prop):
         # merge_all: is_finished() of the outside AND of every inner observer = slot empty ∨ downstream finished
         # (tie_MergeAll_is_finished; seed C16-9 answered the inner one from a memo)
         "RxModel.GenTie.MergeAll": [], "RxModel.GenTie.MergeAllThreads": [],
+        # the scheduler-using operators: is_finished() of their observers = the downstream's (tie_*_is_finished)
+        "RxModel.GenTie.Delay": [], "RxModel.GenTie.DelayThreads": [], "RxModel.GenTie.ObserveOn": [],
+        "RxModel.GenTie.ObserveOnThreads": [], "RxModel.GenTie.Debounce": [], "RxModel.GenTie.Throttle": [],
+        "RxModel.GenTie.BufferCell": [],
         # group_by's observers (is_finished of the outer observer and of a group's subscribers)
         "RxModel.GenTie.GroupBy": [],
         "RxModel.GenTie.Fin.Map": ['map'],
@@ -260,15 +264,23 @@ class C16(Prop):
         for _ in range(reps):
             k = rng.randint(1, 3)
             first = ["iter"] + [str(100 + i) for i in range(k + rng.randint(0, 2))]
+            # (a third of the branches has a scheduler-using operator directly above the producer: delay, observe_on,
+            #  debounce, throttle, buffer_with_time must forward is_finished like everybody else — seed C16-10 made delay
+            #  answer from its own slot, which only a delivery THROUGH the delay empties)
+            tm = rng.choice(TIME_MIDDLE) if rng.random() < 0.34 else None
             if rng.random() < 0.6:
-                branch = self._wrap(rng, ["iterc", str(rng.randint(1, 60))])
+                inner = ["iterc", str(rng.randint(1, 60))]
+                branch = self._wrap(rng, (tm + [inner]) if tm else inner)
                 pipe = ["take", str(k), ["merge", first, branch]]
                 evs = [["sub"], ["q", "pulls"], ["emit", "1", sx.N(7)], ["q", "pulls"]]
-                out.append(Case("pipe", rng.choice(["local", "threads"]), [("pipe", [pipe])], evs,
+                if tm:
+                    evs += [["run"], ["adv", "3"], ["run"], ["q", "pulls"]]
+                out.append(Case("time" if tm else "pipe", rng.choice(["local", "threads"]), [("pipe", [pipe])], evs,
                                 {"kind": "nested-iterator"}))
             else:
                 p = rng.choice([1, 2])
-                branch = self._wrap(rng, ["interval", str(p)])
+                inner = ["interval", str(p)]
+                branch = self._wrap(rng, (tm + [inner]) if tm else inner)
                 pipe = ["take", str(k), ["merge", first, branch]]
                 evs = [["sub"], ["run"]]
                 for _ in range(2 * p + 3):
